@@ -33,11 +33,15 @@ def xml_unresolvable(doc):
     return unresolvable(doc)
 
 
-def make_case(ctx, g):
-    w = World()
+def make_case(ctx, g, prior=None):
     fails = []
-    b = DocBuilder(g, w, malformed=0.0, repeat_id=0.2, xml=True, subtypes=0.3)
-    d, scopes = b.random_document(n_records=g.rng.randint(1, 8))
+    if prior is None:
+        w = World()
+        b = DocBuilder(g, w, malformed=0.0, repeat_id=0.2, xml=True, subtypes=0.3)
+        d, scopes = b.random_document(n_records=g.rng.randint(1, 8))
+    else:
+        # second chapter of the same history: the document was changed in place after it had been exported once
+        w, b, d, scopes = prior
     doc = w.conts[d]
     flags = set()
     if len(scopes) > 1:
@@ -79,7 +83,7 @@ def make_case(ctx, g):
                         break
             fails.append(Failure("oracle", sig, "xml force_types=%s: %s%s%s" % (ft, problem, detail[:700],
                                                                              (" [unresolvable: %s]" % (bad_names[:2],)) if bad_names else ""),
-                                 {"ops": [o for o in w.ops if o["op"] not in ("enc_xml", "dec_xml")], "ft": ft}))
+                                 {"ops": [o for o in w.ops if o["op"] not in ("enc_xml", "dec_xml", "obs")], "ft": ft}))
             break
     ctx.evaluations += 1
     for f in flags:
@@ -87,6 +91,9 @@ def make_case(ctx, g):
     if len(doc.records) >= 2 and flags:
         ctx.nontrivial(w.ops[:40])
     ctx.sample({"n_ops": len(w.ops)})
+    if prior is None and not fails and g.chance(0.25) and b.mutate_in_place([d]):
+        ctx.count("changed-after-first-export")
+        fails.extend(make_case(ctx, g, prior=(w, b, d, scopes))[1])
     return w, fails
 
 
